@@ -208,6 +208,26 @@ def build(P):
              extra_contracts=dict(base, **{idx.lookup(f"{OB}:DynamicObject.get_distance").fq: dist_named,
                                            idx.lookup(f"{SC}:SensingFrameConfig.get_scale_factor").fq: scale_named}))
 
+    # ---------------------------------------------------------------- evaluate_frame: both evaluations always run, on the arguments given
+    def mk_frame2(it):
+        o = mk_frame(it)
+        it.ctx.cell(o).update(seen_det=NONE, seen_det_cloud=NONE, seen_nondet=NONE, seen_nondet_clouds=NONE)
+        return o
+    det_cut = Contract(f"{SF}:SensingFrameResult._evaluate_pointcloud_for_detection", params={},
+                       assigns={"self.seen_det": "ground_truth_objects", "self.seen_det_cloud": "pointcloud_for_detection"})
+    nondet_cut = Contract(f"{SF}:SensingFrameResult._evaluate_pointcloud_for_non_detection", params={},
+                          assigns={"self.seen_nondet": "ground_truth_objects", "self.seen_nondet_clouds": "pointcloud_for_non_detection"})
+    P.verify(f"{SF}:SensingFrameResult.evaluate_frame", name="SensingFrameResult.evaluate_frame",
+             contract=Contract(f"{SF}:SensingFrameResult.evaluate_frame", cut=False,
+                               params={"self": mk_frame2, G: TSList(DO), "pointcloud_for_detection": CLOUD, PCS: TSList(CLOUD)},
+                               modifies=[("attr", "self", a) for a in ("seen_det", "seen_det_cloud", "seen_nondet", "seen_nondet_clouds")],
+                               ensures=E("objects_are_classified_against_the_detection_cloud",
+                                         f"implies(len({G}) > 0, self.seen_det is {G} and same_cloud(self.seen_det_cloud, pointcloud_for_detection))",
+                                         "non_detection_areas_are_always_evaluated_against_the_same_objects",
+                                         f"self.seen_nondet is {G} and self.seen_nondet_clouds is {PCS}")),
+             extra_contracts={idx.lookup(f"{SF}:SensingFrameResult._evaluate_pointcloud_for_detection").fq: det_cut,
+                              idx.lookup(f"{SF}:SensingFrameResult._evaluate_pointcloud_for_non_detection").fq: nondet_cut})
+
     def one_of_three(z3):
         # the three classes are exhaustive and exclusive, so the three counts add up to the number of ground truths (induction step)
         I_, B_ = z3.IntSort(), z3.BoolSort()
